@@ -340,7 +340,7 @@ func (t Table) matchingHosts(req *http.Request, globCache *GlobCache) (hosts []s
 			g = glob.MustCompile(normpat)
 		}
 
-		if g.Match(host) {
+		if globMatch(g, host) {
 			hosts = append(hosts, pattern)
 		}
 	}
